@@ -397,9 +397,11 @@ theorem length_filter_split (p : Item → Bool) (l : List Item) :
   | nil => simp
   | cons x xs ih => by_cases hp : p x = true <;> simp [hp] <;> omega
 
-/-- how many of the five fates currently list the item -/
+/-- how many of the five fates (plus, in the concurrent semantics, the pending lists of running digest calls)
+    currently list the item -/
 def occ (s : State) (it : Item) : Nat :=
-  s.queue.count it + s.gDigested.count it + s.gErrored.count it + s.gEmDropped.count it + s.gExpired.count it
+  s.queue.count it + s.gDigested.count it + s.gErrored.count it + s.gEmDropped.count it + s.gExpired.count it +
+    (s.gPending.map (·.2)).count it
 
 /-- The accounting invariant. -/
 structure Acct (s : State) : Prop where
@@ -809,5 +811,214 @@ theorem run_bin {cfg : Cfg} (htd : cfg.toxDig = none) :
   induction ops with
   | nil => intro s h; exact h
   | cons op ops ih => intro s h; exact ih _ (step_bin htd s op h)
+
+/-! ### sequential calls never leave anything pending -/
+
+theorem emergency_pending (cfg : Cfg) (s : State) : (emergency cfg s).gPending = s.gPending := by
+  unfold emergency; simp only; split <;> rfl
+
+theorem enqueue_pending (cfg : Cfg) (s : State) (id : Nat) (ty : WType) (c : Nat) :
+    (enqueue cfg s id ty c).gPending = s.gPending := by
+  unfold enqueue
+  simp only
+  split
+  · exact emergency_pending cfg s
+  · rfl
+
+theorem step_pending (cfg : Cfg) (s : State) (op : Op) : (step cfg s op).1.gPending = s.gPending := by
+  unfold step
+  split
+  · rfl
+  · cases op with
+    | ingest id ty c =>
+      unfold ingest
+      simp only
+      split
+      · split
+        · exact enqueue_pending cfg s id ty c
+        · exact enqueue_pending cfg s id ty c
+      · exact enqueue_pending cfg s id ty c
+    | digest k => rfl
+    | autophagy => rfl
+    | advance us => rfl
+    | clearBin => rfl
+
+theorem run_pending (cfg : Cfg) : ∀ (ops : List Op) (s : State), (run cfg s ops).gPending = s.gPending := by
+  intro ops
+  induction ops with
+  | nil => intro s; rfl
+  | cons op ops ih => intro s; simp only [run]; rw [ih, step_pending]
+
+/-! ### several threads, atomic actions -/
+
+theorem takeFirst_count {tid : Nat} : ∀ {p : List (Nat × Item)} {x : Item} {r : List (Nat × Item)},
+    takeFirst tid p = some (x, r) →
+    ∀ it, (r.map (·.2)).count it + (if x = it then 1 else 0) = (p.map (·.2)).count it := by
+  intro p
+  induction p with
+  | nil => intro x r h; simp [takeFirst] at h
+  | cons e p ih =>
+    intro x r h it
+    obtain ⟨t, y⟩ := e
+    simp only [takeFirst] at h
+    split at h
+    · cases h
+      by_cases hx : x = it <;> simp [List.count_cons, hx]
+    · split at h
+      · cases h
+      · rename_i x' r' heq
+        cases h
+        have := ih heq it
+        by_cases hy : y = it <;> simp [List.count_cons, hy] <;> omega
+
+theorem takeFirst_length {tid : Nat} : ∀ {p : List (Nat × Item)} {x : Item} {r : List (Nat × Item)},
+    takeFirst tid p = some (x, r) → r.length + 1 = p.length := by
+  intro p
+  induction p with
+  | nil => intro x r h; simp [takeFirst] at h
+  | cons e p ih =>
+    intro x r h
+    obtain ⟨t, y⟩ := e
+    simp only [takeFirst] at h
+    split at h
+    · cases h; simp
+    · split at h
+      · cases h
+      · rename_i x' r' heq
+        cases h
+        have := ih heq
+        simp; omega
+
+theorem act_acct (cfg : Cfg) (s : State) (a : Act) (h : Acct s) : Acct (act cfg s a) := by
+  cases a with
+  | op o => exact step_acct cfg s o h
+  | pop tid k =>
+    have h1 := count_take_drop s.queue (sliceCount s.queue.length k)
+    constructor
+    · intro it
+      have := h.occ_eq it
+      have := h1 it
+      simp only [act, occ, List.map_append, List.map_map, List.count_append] at *
+      have e : (List.map ((fun x : Nat × Item => x.2) ∘ fun it => (tid, it))
+          (List.take (sliceCount s.queue.length k) s.queue)) = List.take (sliceCount s.queue.length k) s.queue := by
+        simp [Function.comp_def]
+      rw [e]
+      omega
+    · exact h.seqs
+    · exact h.dig
+    · exact h.err
+    · exact h.em
+    · exact h.exp
+  | iter tid =>
+    simp only [act]
+    split
+    · exact h
+    · rename_i it rest heq
+      have hc := takeFirst_count heq
+      unfold iterItem
+      split
+      · constructor
+        · intro x
+          have := h.occ_eq x
+          have := hc x
+          simp only [occ, List.count_append, List.count_cons, List.count_nil] at *
+          simp only [beq_iff_eq] at *
+          omega
+        · exact h.seqs
+        · have := h.dig; simp only [List.length_append, List.length_cons, List.length_nil]; omega
+        · exact h.err
+        · exact h.em
+        · exact h.exp
+      · constructor
+        · intro x
+          have := h.occ_eq x
+          have := hc x
+          simp only [occ, List.count_append, List.count_cons, List.count_nil] at *
+          simp only [beq_iff_eq] at *
+          omega
+        · exact h.seqs
+        · exact h.dig
+        · have := h.err; simp only [List.length_append, List.length_cons, List.length_nil]; omega
+        · exact h.em
+        · exact h.exp
+
+theorem runActs_acct (cfg : Cfg) : ∀ (as : List Act) (s : State), Acct s → Acct (runActs cfg s as) := by
+  intro as
+  induction as with
+  | nil => intro s h; exact h
+  | cons a as ih => intro s h; exact ih _ (act_acct cfg s a h)
+
+theorem act_queue_bound (cfg : Cfg) (h2 : 2 ≤ cfg.maxQ) (s : State) (a : Act) (hq : s.queue.length ≤ cfg.maxQ) :
+    (act cfg s a).queue.length ≤ cfg.maxQ := by
+  cases a with
+  | op o => exact step_queue_bound cfg h2 s o hq
+  | pop tid k => simp only [act, List.length_drop]; omega
+  | iter tid =>
+    simp only [act]
+    split
+    · exact hq
+    · unfold iterItem; split <;> exact hq
+
+theorem runActs_queue_bound (cfg : Cfg) (h2 : 2 ≤ cfg.maxQ) : ∀ (as : List Act) (s : State),
+    s.queue.length ≤ cfg.maxQ → (runActs cfg s as).queue.length ≤ cfg.maxQ := by
+  intro as
+  induction as with
+  | nil => intro s h; exact h
+  | cons a as ih => intro s h; exact ih _ (act_queue_bound cfg h2 s a h)
+
+theorem act_tox {cfg : Cfg} {f : Item → Bool} (htd : cfg.toxDig = none) (hot : cfg.onToxic = some f)
+    (s : State) (a : Act) (h : ToxInv s) : ToxInv (act cfg s a) := by
+  cases a with
+  | op o => exact step_tox htd hot s o h
+  | pop tid k => exact h
+  | iter tid =>
+    simp only [act]
+    split
+    · exact h
+    · rename_i it rest heq
+      intro x
+      have h0 := h x
+      have hct := callsToxic_builtin htd hot it
+      unfold iterItem
+      by_cases hs : succeeds cfg it = true <;> by_cases hty : it.ty = .toxic <;> by_cases hx : it = x <;>
+        by_cases hxt : x.ty = .toxic <;>
+        simp_all [List.count_append, List.count_cons] <;> omega
+
+theorem runActs_tox {cfg : Cfg} {f : Item → Bool} (htd : cfg.toxDig = none) (hot : cfg.onToxic = some f) :
+    ∀ (as : List Act) (s : State), ToxInv s → ToxInv (runActs cfg s as) := by
+  intro as
+  induction as with
+  | nil => intro s h; exact h
+  | cons a as ih => intro s h; exact ih _ (act_tox htd hot s a h)
+
+theorem act_bin {cfg : Cfg} (htd : cfg.toxDig = none) (s : State) (a : Act) (h : BinInv s) :
+    BinInv (act cfg s a) := by
+  cases a with
+  | op o => exact step_bin htd s o h
+  | pop tid k => exact h
+  | iter tid =>
+    simp only [act]
+    split
+    · exact h
+    · rename_i it rest heq
+      unfold iterItem
+      split
+      · intro kv hkv
+        simp only at hkv
+        rcases dictUpdate_mem _ _ _ hkv with hkv | hkv
+        · exact h kv hkv
+        · simp only [List.mem_map] at hkv
+          obtain ⟨k, hk, rfl⟩ := hkv
+          intro ht
+          rw [keysOf_toxic htd ht] at hk
+          simp at hk
+      · exact h
+
+theorem runActs_bin {cfg : Cfg} (htd : cfg.toxDig = none) :
+    ∀ (as : List Act) (s : State), BinInv s → BinInv (runActs cfg s as) := by
+  intro as
+  induction as with
+  | nil => intro s h; exact h
+  | cons a as ih => intro s h; exact ih _ (act_bin htd s a h)
 
 end Operon.Lysosome
